@@ -83,11 +83,12 @@ T_SN = ('st', 'SN', [T_flt('float64'), T_ptr(T_int('int')), T_ANY, T_sl(T_int('i
 T_SS = ('st', 'SS', [T_S1, T_ptr(T_S1), T_flt('float32')])
 T_ISTR = ('if', 'IStr', [T_int('Level'), T_int('ULevel'), T_flt('Temp')])
 T_ERR = ('if', 'error', [T_int('Errno')])
+T_E0 = ('st', 'E0', [])
 STRUCTS = [T_S1, T_SF, T_SB, T_SN, T_SS]
 COMPOSITES = STRUCTS + [T_ar(2, T_int('int8')), T_ar(3, T_STR), T_ar(2, T_S1), T_ar(2, T_flt('float64')), T_ar(0, T_int('int')),
                         T_sl(T_int('int')), T_sl(T_STR), T_sl(T_S1), T_sl(T_ANY), T_sl(T_flt('float64')), T_sl(T_sl(T_int('uint8'))), T_sl(T_F0),
                         T_mp(T_STR, T_int('int')), T_mp(T_int('int'), T_STR), T_mp(T_BOOL, T_S1), T_mp(T_STR, T_ANY), T_mp(T_int('uint8'), T_sl(T_int('int'))),
-                        T_mp(T_STR, T_flt('float64'))]
+                        T_mp(T_STR, T_flt('float64')), T_sl(T_E0), T_sl(T_ar(0, T_int('int'))), T_E0]
 FUNCS = [T_F0, T_F1, T_FU]
 POINTERS = ([T_ptr(t) for t in [T_int('int'), T_int('int8'), T_int('uint64'), T_int('Level'), T_flt('float64'), T_flt('float32'), T_STR, T_BOOL,
                                 T_S1, T_SN, T_SF, T_F0, T_ANY, T_sl(T_int('int')), T_mp(T_STR, T_int('int')), T_ar(2, T_int('int8'))]]
@@ -270,6 +271,18 @@ def ty_tok(t):
     return name(t) + ':?:?:?'
 
 
+def evv_line(fixed, slice_t, expr, inputs):
+    """variadic In: inputs = [(fixed args, elements of the packed last argument)]"""
+    toks = ['c18.evv', str(len(fixed) + 1)] + [ty_tok(t) for t in fixed + [slice_t]] + [ty_tok(slice_t[2])] + expr + [str(len(inputs))]
+    for fx, es in inputs:
+        for a in fx:
+            toks += ['nil'] if a is None else a
+        toks.append(str(len(es)))
+        for a in es:
+            toks += ['nil'] if a is None else a
+    return ' '.join(toks)
+
+
 def ev_line(types, expr, inputs):
     toks = ['c18.ev', str(len(types))] + [ty_tok(t) for t in types] + expr + [str(len(inputs))]
     for tup in inputs:
@@ -405,6 +418,80 @@ def gen_ops(tier, rng):
             inputs = inputs + inputs[:1]
         add(ev_line(types, expr, inputs), 'wt')
 
+    # ---- lane 6: values that SHARE storage — sub-slices of one backing array (same or different start, same or different length),
+    # the same header twice, fresh copies of the same contents, zero-size element slices of different length, behind a pointer / interface
+    n6 = 60 * scale
+    elem_types = [T_int('int'), T_STR, T_S1, T_ANY, T_flt('float64'), T_E0, T_ar(0, T_int('int')), T_F0, T_int('uint8')]
+    for _ in range(n6):
+        et = rng.choice(elem_types)
+        st = T_sl(et)
+        n = rng.below(5)
+        elems = [g.value(rng.choice(PLAIN_DYN), 2) if False else g.value(et, 2) for _ in range(n)]
+        flat = [tok for e in elems for tok in e]
+        bid = g.fresh_label()
+
+        def window(lo, hi):
+            return ['ss', name(st), str(bid), str(lo), str(hi), str(n)] + flat
+
+        def copy(lo, hi):
+            return ['sl', name(st), '0', str(hi - lo)] + [tok for e in elems[lo:hi] for tok in e]
+
+        wins = [(lo, hi) for lo in range(n + 1) for hi in range(lo, n + 1)]
+        lo, hi = rng.choice(wins)
+        cand = [window(lo, hi), copy(lo, hi)]
+        for h2 in range(lo, n + 1):
+            cand.append(window(lo, h2))                     # same data pointer, every length
+        for _ in range(3):
+            l2, h2 = rng.choice(wins)
+            cand += [window(l2, h2), copy(l2, h2)]
+        m = rng.below(3)
+        if m == 0:
+            wrap, pt = (lambda t: t), st
+        elif m == 1:
+            pt = T_ptr(st)
+            wrap = lambda t: ['p', name(pt), '0'] + t
+        else:
+            wrap, pt = (lambda t: t), T_ANY
+        ins = [[wrap(c)] for c in cand]
+        if rng.chance(1, 2) or (et is T_ANY and m != 1):   # a []interface{} item of In IS a tuple (expr.go:71), never a plain value
+            add(ev_line([pt], ['eq'] + arg_tokens(wrap(window(lo, hi))), ins), 'wt')
+        else:
+            k = 1 + rng.below(2)
+            expr = ['in', str(k)]
+            for _ in range(k):
+                l2, h2 = rng.choice(wins)
+                expr += ['c', 'v'] + arg_tokens(wrap(window(l2, h2)))
+            add(ev_line([pt], expr, ins), 'wt')
+    for et in (T_E0, T_ar(0, T_int('int'))):                # zero-size elements: every slice has the same data pointer
+        st = T_sl(et)
+        mk = lambda k: ['sl', name(st), '0', str(k)] + [tok for _ in range(k) for tok in g.value(et)]
+        for a in range(4):
+            add(ev_line([st], ['eq'] + arg_tokens(mk(a)), [[mk(b)] for b in range(4)]), 'wt')
+
+    # ---- lane 7: variadic In with tuple items; every argument list is evaluated repeatedly (purity of Eval w.r.t. its input list)
+    n7 = 40 * scale
+    var_elems = [T_int('int'), T_STR, T_ANY, T_int('uint8'), T_flt('float64')]
+    for _ in range(n7):
+        et = rng.choice(var_elems)
+        st = T_sl(et)
+        fixed = [rng.choice([T_STR, T_int('int'), T_BOOL, T_ANY]) for _ in range(rng.below(3))]
+        fpools = [[rand_of(t) for _ in range(2)] for t in fixed]
+        epool = [rand_of(et) for _ in range(3)]
+        k = 1 + rng.below(3)
+        expr = ['in', str(k)]
+        for _ in range(k):
+            m = rng.below(4)
+            expr += ['t', str(len(fixed) + m)]
+            for j in range(len(fixed)):
+                expr += ['v'] + arg_tokens(rng.choice(fpools[j])) if rng.chance(4, 5) else ['e', 'any']
+            for _ in range(m):
+                expr += ['v'] + arg_tokens(rng.choice(epool)) if rng.chance(4, 5) else ['e', 'any']
+        inputs = []
+        for _ in range(1 + rng.below(3)):
+            inputs.append(([rng.choice(fpools[j]) for j in range(len(fixed))], [rng.choice(epool) for _ in range(rng.below(4))]))
+        inputs = inputs + inputs[:1]
+        add(evv_line(fixed, st, expr, inputs), 'wt')
+
     # ---- lane 5: cross-typed and malformed (agreement with the model only; panics/errors are observations)
     n5 = 120 * scale
     same_size = [T_int('int'), T_int('int64'), T_int('uint64'), T_int('uint'), T_int('uintptr'), T_flt('float64'), T_int('NInt'), T_flt('NF64'), T_int('Level'), T_flt('Temp')]
@@ -471,7 +558,7 @@ def annotate(lines, tag):
     if rc != 0:
         raise C.Infra(f'annotate pass failed rc={rc}:\n{log[-2000:]}')
     res = C.read_indexed(outp, len(lines))
-    bad = [(lines[i], r) for i, r in enumerate(res) if r is None or not r.startswith('c18.ev ')]
+    bad = [(lines[i], r) for i, r in enumerate(res) if r is None or not r.startswith(('c18.ev ', 'c18.evv '))]
     if bad:
         raise C.Infra(f'generator produced {len(bad)} lines the probe cannot build, e.g. {bad[0]}')
     return res
@@ -511,7 +598,7 @@ def core(o):
 
 def expr_kind(line):
     toks = line.split(' ')
-    return toks[2 + int(toks[1])]
+    return toks[2 + int(toks[1]) + (1 if toks[0] == 'c18.evv' else 0)]
 
 
 def oracle(line, lane, obs):
@@ -533,7 +620,7 @@ def oracle(line, lane, obs):
     if d.get('R') != 'ok':
         return bad
     if d.get('P') != '1':
-        bad.append(('evaluating the expression changed a later answer (same object re-evaluated / fresh object differ)', None))
+        bad.append(('evaluating the expression changed a later answer or rewrote the caller\'s argument list (same object and same list re-evaluated / fresh object)', None))
     if kind == 'any' and any(a != 't' for a in answers):
         bad.append(('Any rejected an argument', None))
     if kind == 'eq' and 'O' in d:
@@ -586,7 +673,7 @@ def load_corpus():
     p = os.path.join(C.HARNESS, 'c18', 'corpus.ops')
     if not os.path.exists(p):
         return []
-    return [(l.rstrip('\n'), 'wt') for l in open(p) if l.startswith('c18.ev ')]
+    return [(l.rstrip('\n'), 'wt') for l in open(p) if l.startswith(('c18.ev ', 'c18.evv '))]
 
 
 def run(tier):
@@ -646,7 +733,7 @@ def run(tier):
     flagc = {}
     for i, op in enumerate(ops):
         d = split_obs(impl[i])
-        k = 'expr ' + expr_kind(op)
+        k = 'expr ' + expr_kind(op) + (' (variadic)' if op.startswith('c18.evv') else '')
         dist[k] = dist.get(k, 0) + 1
         pk = 'param ' + op.split(' ')[2].split(':')[1]
         dist[pk] = dist.get(pk, 0) + 1
